@@ -207,6 +207,12 @@ class Monitor:
             except Exception:  # noqa: BLE001
                 self._thread_phase = self.n_cases
             _set_threads(self._thread_phase)
+        try:
+            from . import state as _state
+
+            _state.reset_layouts(getattr(self, "_thread_phase", self.n_cases) // 7)
+        except Exception:  # noqa: BLE001
+            pass
 
     def nontrivial(self, flag=True):
         if flag:
